@@ -351,6 +351,8 @@ theorem run_state_nobind {s : State} (h : WF s) (r : ReadOp) (hb : r.mayBind = f
   | serializeTrig nsOf => simp [ReadOp.mayBind] at hb
   | qname nsOf t => simp [ReadOp.mayBind] at hb
   | serializeCtxs => exact Or.inr rfl
+  | serializeHext => exact Or.inr rfl
+  | transitive x p f => exact Or.inl rfl
   | serializePatch => exact Or.inr rfl
   | serializePatchTarget t => exact Or.inl rfl
   | serializeJsonld => exact Or.inr (jsonldRun_self _ _)
@@ -553,6 +555,8 @@ theorem run_out_cc {s : State} (h : WF s) (r : ReadOp) :
   | serializeXml nsOf => simp only [State.run, State.serializeXml, visible_cc]
   | serializePrettyXml nsOf ty d => simp only [State.run, State.serializePrettyXml, visible_cc]
   | serializeCtxs => simp only [State.run, State.serializeCtxs, contextsCall_idem_fst, contextsCall_idem_snd]
+  | serializeHext => simp only [State.run, State.serializeHext, contextsCall_idem_fst, contextsCall_idem_snd]
+  | transitive x p f => simp only [State.run, visible_cc]
   | serializePatch => simp only [State.run, State.serializePatch, contextsCall_idem_fst, contextsCall_idem_snd]
   | serializePatchTarget t => simp only [State.run, State.serializePatchTarget, contextsCall_quads]
   | serializeTrig nsOf => simp only [State.run, State.serializeTrig, contextsCall_idem_fst, contextsCall_idem_snd]
@@ -609,6 +613,10 @@ theorem run_out_setNs {s : State} (h : WF s) (k : List Nat) (r : ReadOp) :
   | serializeXml nsOf => rfl
   | serializePrettyXml nsOf ty d => rfl
   | serializeCtxs => simp only [State.run, State.serializeCtxs, hc1, hc2, hq']
+  | serializeHext =>
+    have hd' : (s.contextsCall.1.setNs k).dname = s.contextsCall.1.dname := rfl
+    simp only [State.run, State.serializeHext, hc1, hc2, hq', hd']
+  | transitive x p f => rfl
   | serializePatch => simp only [State.run, State.serializePatch, hc1, hc2, hq']
   | serializePatchTarget t => rfl
   | serializeTrig nsOf =>
